@@ -255,7 +255,12 @@ fn num_text(v: u128, neg: bool, ch: &mut Choices, out: &mut Out, fancy: bool) ->
         s.push(b'-');
     }
     if fancy && ch.chance(2) {
-        let zeros = 1 + ch.pick(9);
+        // mostly a few; sometimes more zeros than any integer type has digits
+        let zeros = match ch.pick(16) {
+            0 => 20 + ch.pick(30),
+            1 => 50 + ch.pick(250),
+            k => 1 + (k % 9),
+        };
         s.extend(std::iter::repeat(b'0').take(zeros));
         out.feature("leading-zeros");
     }
